@@ -51,6 +51,10 @@ CHECKS.update({
 })
 
 CHECKS.update({
+    "C03": ("exploration",
+            "byte-equality monitors on the real parser and update path: str(parse(T)) == T, model.code == T, no-op update_source, and an independent record splitter comparing unrelated records after single edits",
+            "Corpus, generated and layout-mutated control streams are parsed and printed, read as models, regenerated without modification and after one single-component edit; every byte of every record the edit does not concern must survive in order. Violations are attributed to listed mechanisms by normalisation delta checks.",
+            "Trusted: the harness's own record splitter (^[ \\t]*\\$NAME) and the table of record kinds an edit may touch (DESIGN.md §3 C03).", "DESIGN.md §3 C03"),
     "C04": ("exploration",
             "two independent readers of the generated parameter records (vp.nmtran_ref record readers and pharmpy's own reader) monitored after every edit of generated record layouts; token-spelling monitor for untouched values",
             "Generated $THETA/$OMEGA/$SIGMA layouts are read, edited by random sequences of public parameter / random-effect edits, and after every edit the generated text must give back exactly the model's parameters and distributions under both readers; untouched thetas and untouched $OMEGA/$SIGMA records must keep their spelling. Violations are attributed to listed mechanisms only by replaying the same edits on a repaired layout (delta check).",
@@ -69,7 +73,7 @@ CHECKS.update({
             "Trusted: formulas as documented (docs/*.rst, docstrings) coded in vp/gen/results.py; where docs leave a choice the numpy/pandas defaults are accepted (listed in the evidence).", "DESIGN.md §3 C19"),
 })
 
-READY = ["C01", "C04", "C05", "C10", "C11", "C13", "C14", "C17", "C18", "C19", "C20"]
+READY = ["C01", "C03", "C04", "C05", "C10", "C11", "C13", "C14", "C17", "C18", "C19", "C20"]
 
 NOT_BUILT = "check not built yet in this session (design in DESIGN.md); not claimed"
 
